@@ -61,8 +61,11 @@ type Scenario struct {
 	// generations); the configured read_timeout is what cuts off a stalled backend either way
 	NoResponseTimeout bool `json:"no_response_timeout,omitempty"`
 	// StreamBufferSize: proxy.stream_buffer_size for this rig (0 = the default)
-	StreamBufferSize int    `json:"stream_buffer_size,omitempty"`
-	Route            string `json:"route"` // proxy (/olla/proxy/..., bytes relayed verbatim) | anthropic (/olla/anthropic/v1/messages: the backend's OpenAI SSE is translated on the fly; acknowledgement = the client saw new bytes)
+	StreamBufferSize int `json:"stream_buffer_size,omitempty"`
+	// Enc: the backend's answer carries Content-Encoding: <Enc> (a compressing front end such as nginx with gzip on); the
+	// proxy relays the encoded bytes as they are, chunk by chunk, like any other stream
+	Enc   string `json:"enc,omitempty"`
+	Route string `json:"route"` // proxy (/olla/proxy/..., bytes relayed verbatim) | anthropic (/olla/anthropic/v1/messages: the backend's OpenAI SSE is translated on the fly; acknowledgement = the client saw new bytes)
 }
 
 type ChunkObs struct {
@@ -273,6 +276,9 @@ func (b *Backend) play(c net.Conn, sc *Scenario, t0 time.Time, acks []chan struc
 	}
 	var hb bytes.Buffer
 	fmt.Fprintf(&hb, "HTTP/1.1 200 OK\r\nContent-Type: %s\r\n", sc.CT)
+	if sc.Enc != "" {
+		fmt.Fprintf(&hb, "Content-Encoding: %s\r\nVary: Accept-Encoding\r\n", sc.Enc)
+	}
 	if sc.Framing == "cl" {
 		cl := total
 		if sc.Ending != "eof" {
@@ -500,7 +506,12 @@ func RunClient(addr string, sc *Scenario, t0 time.Time, acks []chan struct{}, th
 		target = "/olla/anthropic/v1/messages"
 		body = `{"max_tokens":64,"model":"m1","stream":true,"messages":[{"role":"user","content":[{"type":"text","text":"hi"}]}]}`
 	}
-	req := fmt.Sprintf("POST %s HTTP/1.1\r\nHost: %s\r\nContent-Type: application/json\r\nContent-Length: %d\r\nConnection: close\r\n\r\n%s", target, addr, len(body), body)
+	accept := ""
+	if sc.Enc != "" {
+		// the client asks for the encoding itself, so the proxy's transport relays the encoded bytes instead of decoding them
+		accept = "Accept-Encoding: " + sc.Enc + "\r\n"
+	}
+	req := fmt.Sprintf("POST %s HTTP/1.1\r\nHost: %s\r\nContent-Type: application/json\r\n%sContent-Length: %d\r\nConnection: close\r\n\r\n%s", target, addr, accept, len(body), body)
 	if _, err := c.Write([]byte(req)); err != nil {
 		o.Err, o.End = "write", "error"
 		return o
